@@ -17,6 +17,9 @@ MOTIFS = {
     'collinear3': (['O', 'C', 'S'], [(0, 0, 0), (1.2, 0, 0), (2.7, 0, 0)]),
     'pair': (['C', 'H'], [(0, 0, 0), (1.09, 0, 0)]),
     'single': (['H'], [(0, 0, 0)]),
+    'singleF': (['F'], [(0, 0, 0)]),
+    'pairCF': (['C', 'F'], [(0, 0, 0), (1.35, 0, 0)]),
+    'chiralCHSP': (['C', 'H', 'S', 'P'], [(0, 0, 0), (1.0, 0, 0), (0.3, 1.5, 0.2), (-0.4, -0.2, 1.8)]),
     'linear-sym3': (['O', 'C', 'O'], [(-1.16, 0, 0), (0, 0, 0), (1.16, 0, 0)]),
     'ch4': (['C', 'H', 'H', 'H', 'H'], [(0, 0, 0), (0.63, 0.63, 0.63), (-0.63, -0.63, 0.63), (-0.63, 0.63, -0.63),
                                         (0.63, -0.63, -0.63)]),
